@@ -156,6 +156,9 @@ impl Decoder for ServerAeadCodec {
     fn decode(&mut self, src: &mut BytesMut) -> Result<Option<Self::Item>, Self::Error> {
         match self.decode_state {
             DecodeState::Init => {
+                if src.len() < 16 {
+                    return Ok(None);
+                }
                 let auth_id = &src[0..16];
                 if let Some(key) = auth_id::matching(auth_id, &self.keys)? {
                     if let Some(header) = encrypt::open_header(&key, src)? {
